@@ -400,6 +400,26 @@ fn c17_transactions(tier: Tier) -> Vec<Transaction> {
             }
         }
     }
+    // big ones: blobs on both sides of the 2048-byte slot size and well beyond
+    for target in [2031usize, 2032, 2033, 4096, 10_000] {
+        let mk = |script_len: usize| Transaction {
+            version: Version::TWO,
+            lock_time: LockTime::ZERO,
+            input: vec![TxIn { previous_output: OutPoint { txid: Txid::from_byte_array([9; 32]), vout: 1 }, script_sig: ScriptBuf::new(), sequence: Sequence::MAX, witness: Witness::new() }],
+            output: vec![TxOut { value: Amount::from_sat(5), script_pubkey: ScriptBuf::from_bytes(vec![0x6a; script_len]) }],
+        };
+        let mut len = target.saturating_sub(70);
+        while bitcoin::consensus::serialize(&mk(len)).len() < target {
+            len += 1;
+        }
+        v.push(mk(len));
+    }
+    v.push(Transaction {
+        version: Version::TWO,
+        lock_time: LockTime::ZERO,
+        input: vec![TxIn { previous_output: OutPoint { txid: Txid::from_byte_array([8; 32]), vout: 0 }, script_sig: ScriptBuf::new(), sequence: Sequence::MAX, witness: Witness::new() }],
+        output: (0..64).map(|i| TxOut { value: Amount::from_sat(i), script_pubkey: ScriptBuf::from_bytes(vec![0x51; 25]) }).collect(),
+    });
     v
 }
 
